@@ -160,6 +160,17 @@ let each_line f =
     done
   with End_of_file -> ()
 
+(* the width oracle handed to the model: the implementation's own measurement of that very text when the harness
+   harvested one, else the sum of the per-character measurements, else one column per character *)
+let swidth_of (table : (string * n) list) (s : str) : n =
+  match List.assoc_opt (hex_of_str s) table with
+  | Some x -> x
+  | None ->
+      n_of_int (List.fold_left (fun acc c ->
+          match List.assoc_opt (hex_of_str [c]) table with
+          | Some x -> acc + int_of_n x
+          | None -> acc + 1) 0 s)
+
 let () =
   let mode = if Array.length Sys.argv > 1 then Sys.argv.(1) else "" in
   match mode with
@@ -194,10 +205,7 @@ let () =
           let reo = (next t = "1") in
           let nw = int_of_string (next t) in
           let table = List.init nw (fun _ -> let h = next t in let wd = int_of_string (next t) in (h, n_of_int wd)) in
-          let swidth (s : str) : n =
-            match List.assoc_opt (hex_of_str s) table with
-            | Some x -> x
-            | None -> n_of_int (List.length s) in
+          let swidth (s : str) : n = swidth_of table s in
           let tree = parse_tree t in
           let cfg = { tab_spaces = tab; max_width = w; blank_lines_upper_bound = cfg_default.blank_lines_upper_bound;
                       reorder_import_items = reo } in
@@ -218,13 +226,11 @@ let () =
           let b = n_of_int (int_of_string (next t)) in
           let nw = int_of_string (next t) in
           let table = List.init nw (fun _ -> let h = next t in let wd = int_of_string (next t) in (h, n_of_int wd)) in
-          let swidth (s : str) : n =
-            match List.assoc_opt (hex_of_str s) table with
-            | Some x -> x
-            | None -> n_of_int (List.length s) in
+          let swidth (s : str) : n = swidth_of table s in
           let tree = parse_tree t in
           let cfg = { tab_spaces = tab; max_width = w; blank_lines_upper_bound = cfg_default.blank_lines_upper_bound;
                       reorder_import_items = false } in
+          let swfc tree = match range_node tree a b with Some node -> erroneous node || swfc node | None -> true in
           match format_range swidth cfg tree a b with
           | ROk (rs, re, out) -> Printf.sprintf "ok %d %d %s swfc=%d" (int_of_n rs) (int_of_n re) (hex_of_str out) (if swfc tree then 1 else 0)
           | RErr -> Printf.sprintf "err swfc=%d" (if swfc tree then 1 else 0)
